@@ -374,8 +374,11 @@ theorem parseToken_operand_ne (S : Sem V) (t : Tok) (opd : List V) (opt : List T
   have he : isEndParen t = false := by simp [isEndParen, hty]
   unfold parseToken at h
   simp only [hsub, Bool.false_eq_true, if_false, hop, hb, he, ht, if_true] at h
-  simp only [Outcome.ok.injEq, Prod.mk.injEq] at h
-  rw [← h.1]; simp
+  cases hpf : applyPostfix S t opd with
+  | none => simp [hpf] at h
+  | some o =>
+    simp only [hpf, Outcome.ok.injEq, Prod.mk.injEq] at h
+    rw [← h.1]; simp
 
 theorem curArr_some {st : St V} {a : ArrC V} (h : curArr st = some a) : ∃ as, st.arrs = a :: as := by
   unfold curArr at h
